@@ -53,7 +53,7 @@ pub fn run_case(am: &mut Amortised, case: &Case, res: &mut ShardResult, validate
                 // keep the first program of every rejection class for inspection
                 let keep = work_dir("rejected").join(format!("{}_{}.sw", profile.name(), bucket(&msg).replace([' ', '#'], "_")));
                 if !keep.exists() {
-                    let _ = std::fs::write(&keep, format!("// {msg}\n{}", case.src));
+                    let _ = std::fs::write(&keep, format!("// {msg}\n// origin: {:?}\n{}", case.origin, case.src));
                 }
                 let _ = std::fs::remove_dir_all(&dir);
                 continue;
@@ -125,7 +125,7 @@ fn shard(ctx: &ShardCtx) -> ShardResult {
     while ctx.time_left() {
         let case = case_at(ctx.seed, ctx.shard, i, 12, &mut res);
         journal_current(ctx, &case.src);
-        ctx.begin_case(i, &case.src, &res);
+        ctx.begin_case(i, &format!("// origin: {:?}\n{}", case.origin, case.src), &res);
         run_case(&mut am, &case, &mut res, i == 1);
         ctx.end_case();
         i += 1;
@@ -150,7 +150,87 @@ fn replay(case: &Value) -> ShardResult {
 }
 
 /// `swverif probe <file.sw> [hex script data]...` : compile a script in both profiles and print what the VM does
+/// `swverif reduce <seed> <shard> <index> <n_inputs> <ice|mismatch|diff> [message fragment]`
+/// triage tool: shrink the generated case while it still shows the behaviour, print the source
+fn reduce_cmd(args: &[String]) -> i32 {
+    let n: Vec<u64> = args[1..5].iter().map(|s| s.parse().expect("number")).collect();
+    let kind = args[5].clone();
+    let frag = args.get(6).cloned().unwrap_or_default();
+    let mut scratch = ShardResult::default();
+    let case = case_at(n[0], n[1], n[2], n[3] as usize, &mut scratch);
+    let work = work_dir("reduce");
+    clean_dir(&work);
+    let mut am = Amortised::new(&work);
+    am.warm().expect("std");
+    let inputs = case.inputs.clone();
+    let mode = case.mode;
+    let origin = case.origin;
+    let mut interesting = |p: &crate::swgen::Program| -> bool {
+        let src = crate::swgen::print_program(p);
+        let mut expected = vec![];
+        let mut script_data = vec![];
+        for (sel, a) in &inputs {
+            let r = catch(AssertUnwindSafe(|| crate::swgen::Interp::run(p, *sel, a)));
+            match r {
+                Ok((o, _)) => expected.push(o),
+                Err(_) => return false,
+            }
+            script_data.push(crate::swgen::script_data(p, *sel, a));
+        }
+        let c = Case { mode, program: p.clone(), src: src.clone(), inputs: inputs.clone(), script_data, expected, origin };
+        let mut res = ShardResult::default();
+        match kind.as_str() {
+            "ice" => {
+                for profile in Profile::BOTH {
+                    if let Ok(Err(_)) = catch(AssertUnwindSafe(|| am.compile("gencase", &src, profile))) {
+                        let dir = am.last_dir();
+                        let msg = first_error_text(&mut am, &dir, profile);
+                        let _ = std::fs::remove_dir_all(&dir);
+                        if msg.contains(&frag) {
+                            return true;
+                        }
+                    } else {
+                        let _ = std::fs::remove_dir_all(am.last_dir());
+                    }
+                }
+                false
+            }
+            "panic" => {
+                for profile in Profile::BOTH {
+                    let r = catch(AssertUnwindSafe(|| am.compile("gencase", &src, profile)));
+                    let _ = std::fs::remove_dir_all(am.last_dir());
+                    if let Err((loc, msg)) = r {
+                        if format!("{loc} {msg}").contains(&frag) {
+                            return true;
+                        }
+                    }
+                }
+                false
+            }
+            "mismatch" => {
+                run_case(&mut am, &c, &mut res, false);
+                res.violations.iter().any(|v| v.signature != OOB_SIG)
+            }
+            "diff" => {
+                crate::c02::gen_pair(&mut am, &c, &mut res);
+                !res.violations.is_empty()
+            }
+            _ => false,
+        }
+    };
+    if !interesting(&case.program) {
+        println!("the original case does not show the behaviour");
+        return 1;
+    }
+    let reduced = crate::reduce::reduce(case.program.clone(), &mut interesting, 1500);
+    println!("{}", crate::swgen::print_program(&reduced));
+    0
+}
+
 fn subcommand(args: &[String]) -> Option<i32> {
+    if args.first().map(|s| s.as_str()) == Some("reduce") {
+        return Some(reduce_cmd(args));
+    }
     if args.first().map(|s| s.as_str()) != Some("probe") {
         return None;
     }
